@@ -27,6 +27,13 @@ def gen(rng, tier):
             minr = min(min(row) for row in m["R"])
             bs = gen_beliefs(rng, 1, 1)
             out.append("plan %s %s 2 3 %s %d %s %d %s" % (alg, repr_, Qs([minr]), rng.randrange(1 << 30), fmt_pomdp(m), len(bs), " ".join(Qs(b) for b in bs)))
+    # many observations (see props/C02.py): the links of IncrementalPruning's entries must come out in observation order
+    for k in range({"quick": 14, "thorough": 50, "search": 30}[tier]):
+        O = rng.choice([5, 6, 7, 7, 8, 9, 11, 12, 13, 16])
+        m = gen_pomdp(rng, 2, 2, O, gammas=(F(1, 2), F(3, 4)))
+        bs = gen_beliefs(rng, 2, 3)
+        out.append("plan %s %s 2 3 %s %d %s %d %s" % (rng.choice(["ip", "ip", "wit", "pbvi"]), rng.choice(["dense", "sparse"]),
+                   Qs([0]), rng.randrange(1 << 30), fmt_pomdp(m), len(bs), " ".join(Qs(b) for b in bs)))
     # long horizons on tiny models: the sizes of the lists go up AND down from one horizon to the next
     for k in range({"quick": 50, "thorough": 200, "search": 100}[tier]):
         m = gen_pomdp(rng, 2, 2, 2, gammas=(F(1, 2), F(3, 4), F(1)))
